@@ -1,12 +1,12 @@
 PROP = dict(
     id='C18', level='exploration',
     pyvc=['contracts.c18', ['contracts.c18b']],
-    finite=[],
+    finite=['finite.frames:sql_rule_frames'],
     bounded='bounded.c18',
     bounded_budget=dict(quick=45, thorough=420),
     assumptions=[],
     trusted_base=['z3 5.1 / cvc5 1.0.3', 'pyvc symbolic executor and its encoding of Python (DESIGN.md section 2.3)', 'CPython 3.12, PLY 3.11 (A-PLY)'],
-    manifest=dict(text='Deductive core (tier P, 76 obligations): the instance pass creates one instance per INSERT statement, in statement order, through the named or the positional route as the statement was written (call trace); the three schema passes of a build — ModelLoader.populate_classes, populate_unique_identifiers and populate_associations — replay exactly the accepted statements of their kind, in statement order, with the arguments of each (kind and attribute list; class, identifier name and attribute names; association number, both ends with key attributes, multiplicity, conditionality and phrase), formalize every association they define exactly once, keep earlier definitions and leave the statement list of the loader as it was (call traces of define_class / define_unique_identifier / define_association / formalize). Whether two builds share list objects is outside the encoding (sequences are values). Bounded: all arrangements of 2 inputs, 3 builds, 3 mutations over 9 mutation kinds and 9 scenarios; every other metamodel and later build compared after each event.',
+    manifest=dict(text='Deductive core (tier P, 76 obligations): the instance pass creates one instance per INSERT statement, in statement order, through the named or the positional route as the statement was written (call trace); the three schema passes of a build — ModelLoader.populate_classes, populate_unique_identifiers and populate_associations — replay exactly the accepted statements of their kind, in statement order, with the arguments of each (kind and attribute list; class, identifier name and attribute names; association number, both ends with key attributes, multiplicity, conditionality and phrase), formalize every association they define exactly once, keep earlier definitions and leave the statement list of the loader as it was (call traces of define_class / define_unique_identifier / define_association / formalize). That a rejected input leaves nothing behind for later builds rests on the frame obligations of the grammar rules (tier F, 88 syntactic obligations shared with C12: no rule function writes or leaks loader state). Whether two builds share list objects is outside the encoding (sequences are values). Bounded: all arrangements of 2 inputs, 3 builds, 3 mutations over 9 mutation kinds and 9 scenarios; every other metamodel and later build compared after each event.',
                   note='The user does not mutate Stmt objects or association key lists directly.',
                   technique='bounded stand-in (run-time contracts on the real functions driven by small-scope enumeration; labelled bounded, never counted as proved); contract-based deductive verification (pyvc) only for the four statement passes of a build (classes, identifiers, associations, instances), as call traces, reported separately as tier P; aliasing between builds cannot be expressed in the encoding (Python lists are values there) and is decided by the bounded tier'),
 )
